@@ -166,4 +166,178 @@ example : u64toa 255#64 (List.replicate 3 0xA5#8) 16#8 = some ([0x46#8, 0x46#8, 
 -- a buffer one byte short faults (the NUL is really written)
 example : i64toa (BitVec.ofInt 64 (-42)) (List.replicate 3 0xA5#8) 10#8 = none := by decide
 
+/-! ## C. parsing (`ato_inverse`) -/
+
+/-- Letters of either case: both characters of a digit have its value. -/
+theorem digit_either_case (d : Nat) (hd : d < 36) :
+    digitValue (digitChar true d) = d ∧ digitValue (digitChar false d) = d :=
+  ⟨digitValue_digitChar d hd true, digitValue_digitChar d hd false⟩
+
+/-- The characters accepted in base `b ≤ 36` are EXACTLY the digits of that base
+    (in either case): nothing else continues a number. -/
+theorem accepted_iff_digit_of_base (c : Byte) (b : Nat) (hb : b ≤ 36) :
+    digitValue c < b ↔ ∃ d, d < b ∧ (c = digitChar true d ∨ c = digitChar false d) := by
+  constructor
+  · intro h
+    rcases digitValue_classify c with h255 | ⟨_, hc⟩
+    · omega
+    · exact ⟨digitValue c, h, hc⟩
+  · rintro ⟨d, hd, rfl | rfl⟩
+    · rw [digitValue_digitChar d (by omega) true]; exact hd
+    · rw [digitValue_digitChar d (by omega) false]; exact hd
+
+/-- igris_atou64 on ANY digit string: a run `chars` of characters that are digits of the
+    base, followed by a character `t` that is not (any terminator, the NUL included), then
+    anything.  The value is the positional value of the digits modulo 2^64, `*end` is the
+    offset of `t`: parsing stops at the first character that cannot continue the number and
+    reports that position. -/
+theorem atou64_digit_string (base : BitVec 8) (chars : List Byte) (t : Byte) (rest : List Byte)
+    (h : ∀ c ∈ chars, digitValue c < base.toNat) (ht : ¬ digitValue t < base.toNat) :
+    atou64 (chars ++ t :: rest) 0 base
+      = some (BitVec.ofNat 64 (ofDigits base.toNat (chars.map digitValue)), chars.length) := by
+  simp [atou64, atouLoop_parse _ _ chars t rest 0 h ht, ofNat_mod 64]
+
+theorem atou32_digit_string (base : BitVec 8) (chars : List Byte) (t : Byte) (rest : List Byte)
+    (h : ∀ c ∈ chars, digitValue c < base.toNat) (ht : ¬ digitValue t < base.toNat) :
+    atou32 (chars ++ t :: rest) 0 base
+      = some (BitVec.ofNat 32 (ofDigits base.toNat (chars.map digitValue)), chars.length) := by
+  simp [atou32, atouLoop_parse _ _ chars t rest 0 h ht, ofNat_mod 32]
+
+/-- the NUL terminates a number in every base (`uint8_t base` ≤ 255 = digit_value('\0')) -/
+theorem nul_stops (base : BitVec 8) : ¬ digitValue 0#8 < base.toNat := by
+  rw [digitValue_nul]; have := base.isLt; omega
+
+/-- signed parsers: a leading `'-'` negates (in the unsigned type: wraps, never traps);
+    `*end` counts the sign -/
+theorem atoi64_digit_string (base : BitVec 8) (chars : List Byte) (t : Byte) (rest : List Byte)
+    (h : ∀ c ∈ chars, digitValue c < base.toNat) (ht : ¬ digitValue t < base.toNat) :
+    atoi64 (0x2D#8 :: chars ++ t :: rest) base
+      = some (-(BitVec.ofNat 64 (ofDigits base.toNat (chars.map digitValue))), chars.length + 1) := by
+  have : (0x2D#8 == 0x2D#8) = true := by decide
+  simp only [atoi64, List.cons_append, List.getElem?_cons_zero, this, if_true, atou64, List.drop_succ_cons,
+    List.drop_zero]
+  rw [atouLoop_parse _ _ chars t rest 1 h ht]
+  simp [ofNat_mod 64, Nat.add_comm]
+
+theorem atoi32_digit_string (base : BitVec 8) (chars : List Byte) (t : Byte) (rest : List Byte)
+    (h : ∀ c ∈ chars, digitValue c < base.toNat) (ht : ¬ digitValue t < base.toNat) :
+    atoi32 (0x2D#8 :: chars ++ t :: rest) base
+      = some (-(BitVec.ofNat 32 (ofDigits base.toNat (chars.map digitValue))), chars.length + 1) := by
+  have : (0x2D#8 == 0x2D#8) = true := by decide
+  simp only [atoi32, List.cons_append, List.getElem?_cons_zero, this, if_true, atou32, List.drop_succ_cons,
+    List.drop_zero]
+  rw [atouLoop_parse _ _ chars t rest 1 h ht]
+  simp [ofNat_mod 32, Nat.add_comm]
+
+/-! Round trips: parsing what `*toa` wrote, in the same base, returns the value, and `*end`
+    is the offset `*toa` returned (the terminator).  Stated on the memory the renderer
+    leaves behind, for every width. -/
+
+theorem ato_inverse_i64 (v : BitVec 64) (base : BitVec 8) (hb : 2 ≤ base.toNat ∧ base.toNat ≤ 36)
+    (m : List Byte) (hm : (canonInt false base.toNat v.toInt).length + 1 ≤ m.length) :
+    ∃ m' e, i64toa v m base = some (m', e) ∧ atoi64 m' base = some (v, e) :=
+  ⟨_, _, i64toa_canonical v base hb m hm, by rw [atoi64_canon base hb.1 hb.2, BitVec.ofInt_toInt]⟩
+
+theorem ato_inverse_i32 (v : BitVec 32) (base : BitVec 8) (hb : 2 ≤ base.toNat ∧ base.toNat ≤ 36)
+    (m : List Byte) (hm : (canonInt false base.toNat v.toInt).length + 1 ≤ m.length) :
+    ∃ m' e, i32toa v m base = some (m', e) ∧ atoi32 m' base = some (v, e) :=
+  ⟨_, _, i32toa_canonical v base hb m hm, by rw [atoi32_canon base hb.1 hb.2, BitVec.ofInt_toInt]⟩
+
+theorem ato_inverse_i16 (v : BitVec 16) (base : BitVec 8) (hb : 2 ≤ base.toNat ∧ base.toNat ≤ 36)
+    (m : List Byte) (hm : (canonInt false base.toNat v.toInt).length + 1 ≤ m.length) :
+    ∃ m' e, i16toa v m base = some (m', e) ∧ atoi16 m' base = some (v, e) :=
+  ⟨_, _, i16toa_canonical v base hb m hm, by
+    simp [atoi16, atoi32_canon base hb.1 hb.2, BitVec.truncate_eq_setWidth, setWidth_ofInt16, BitVec.ofInt_toInt]⟩
+
+theorem ato_inverse_i8 (v : BitVec 8) (base : BitVec 8) (hb : 2 ≤ base.toNat ∧ base.toNat ≤ 36)
+    (m : List Byte) (hm : (canonInt false base.toNat v.toInt).length + 1 ≤ m.length) :
+    ∃ m' e, i8toa v m base = some (m', e) ∧ atoi8 m' base = some (v, e) :=
+  ⟨_, _, i8toa_canonical v base hb m hm, by
+    simp [atoi8, atoi32_canon base hb.1 hb.2, BitVec.truncate_eq_setWidth, setWidth_ofInt8, BitVec.ofInt_toInt]⟩
+
+theorem ato_inverse_u64 (v : BitVec 64) (base : BitVec 8) (hb : 2 ≤ base.toNat ∧ base.toNat ≤ 36)
+    (m : List Byte) (hm : (canonNat true base.toNat v.toNat).length + 1 ≤ m.length) :
+    ∃ m' e, u64toa v m base = some (m', e) ∧ atou64 m' 0 base = some (v, e) :=
+  ⟨_, _, u64toa_canonical v base hb m hm, by rw [atou64_canon base hb.1 hb.2]; simp⟩
+
+theorem ato_inverse_u32 (v : BitVec 32) (base : BitVec 8) (hb : 2 ≤ base.toNat ∧ base.toNat ≤ 36)
+    (m : List Byte) (hm : (canonNat true base.toNat v.toNat).length + 1 ≤ m.length) :
+    ∃ m' e, u32toa v m base = some (m', e) ∧ atou32 m' 0 base = some (v, e) :=
+  ⟨_, _, u32toa_canonical v base hb m hm, by rw [atou32_canon base hb.1 hb.2]; simp⟩
+
+theorem ato_inverse_u16 (v : BitVec 16) (base : BitVec 8) (hb : 2 ≤ base.toNat ∧ base.toNat ≤ 36)
+    (m : List Byte) (hm : (canonNat true base.toNat v.toNat).length + 1 ≤ m.length) :
+    ∃ m' e, u16toa v m base = some (m', e) ∧ atou16 m' 0 base = some (v, e) :=
+  ⟨_, _, u16toa_canonical v base hb m hm, by
+    simp [atou16, atou32_canon base hb.1 hb.2, BitVec.truncate_eq_setWidth, BitVec.setWidth_ofNat_of_le]⟩
+
+theorem ato_inverse_u8 (v : BitVec 8) (base : BitVec 8) (hb : 2 ≤ base.toNat ∧ base.toNat ≤ 36)
+    (m : List Byte) (hm : (canonNat true base.toNat v.toNat).length + 1 ≤ m.length) :
+    ∃ m' e, u8toa v m base = some (m', e) ∧ atou8 m' 0 base = some (v, e) :=
+  ⟨_, _, u8toa_canonical v base hb m hm, by
+    simp [atou8, atou32_canon base hb.1 hb.2, BitVec.truncate_eq_setWidth, BitVec.setWidth_ofNat_of_le]⟩
+
+/-- ... and with the case of every letter flipped the text parses to the same value:
+    the signed parser reads the UPPER-case text, the unsigned parser the lower-case one -/
+theorem ato_inverse_other_case (v : BitVec 64) (base : BitVec 8) (hb : 2 ≤ base.toNat ∧ base.toNat ≤ 36)
+    (tail : List Byte) :
+    atoi64 (canonInt true base.toNat v.toInt ++ 0#8 :: tail) base = some (v, (canonInt true base.toNat v.toInt).length)
+    ∧ atou64 (canonNat false base.toNat v.toNat ++ 0#8 :: tail) 0 base = some (v, (canonNat false base.toNat v.toNat).length) := by
+  refine ⟨by rw [atoi64_canon base hb.1 hb.2, BitVec.ofInt_toInt], by rw [atou64_canon base hb.1 hb.2]; simp⟩
+
+-- non-vacuity / sanity: "12ab" in base 10 is 12 with end at 'a'; "7fZ" in base 16 is 0x7f, end 2
+example : atou32 [0x31#8, 0x32#8, 0x61#8, 0x62#8, 0#8] 0 10#8 = some (12#32, 2) := by decide
+example : atou32 [0x37#8, 0x66#8, 0x5A#8, 0#8] 0 16#8 = some (0x7f#32, 2) := by decide
+example : atoi32 [0x2D#8, 0x7A#8, 0#8] 36#8 = some (BitVec.ofInt 32 (-35), 2) := by decide
+
+/-! ## D. the libc-style shims (compat/libc/stdlib/itoa.c) emit the same canonical text
+
+  `base` is an `unsigned short` here; the shims return `buf` (offset 0), write lower-case
+  letters, and — after the repair — handle INT_MIN / LONG_MIN like every other value. -/
+
+theorem itoa_canonical (num : BitVec 32) (base : BitVec 16) (hb : 2 ≤ base.toNat ∧ base.toNat ≤ 36)
+    (m : List Byte) (hm : (canonInt false base.toNat num.toInt).length + 1 ≤ m.length) :
+    itoa num m base
+      = some (canonInt false base.toNat num.toInt ++ 0#8 :: m.drop ((canonInt false base.toNat num.toInt).length + 1), 0) :=
+  itoa_spec num base hb.1 hb.2 m hm
+
+theorem ltoa_canonical (num : BitVec 64) (base : BitVec 16) (hb : 2 ≤ base.toNat ∧ base.toNat ≤ 36)
+    (m : List Byte) (hm : (canonInt false base.toNat num.toInt).length + 1 ≤ m.length) :
+    ltoa num m base
+      = some (canonInt false base.toNat num.toInt ++ 0#8 :: m.drop ((canonInt false base.toNat num.toInt).length + 1), 0) :=
+  ltoa_spec num base hb.1 hb.2 m hm
+
+theorem utoa_canonical (num : BitVec 32) (base : BitVec 16) (hb : 2 ≤ base.toNat ∧ base.toNat ≤ 36)
+    (m : List Byte) (hm : (canonNat false base.toNat num.toNat).length + 1 ≤ m.length) :
+    utoa num m base
+      = some (canonNat false base.toNat num.toNat ++ 0#8 :: m.drop ((canonNat false base.toNat num.toNat).length + 1), 0) :=
+  utoa_spec num base hb.1 hb.2 m hm
+
+theorem ultoa_canonical (num : BitVec 64) (base : BitVec 16) (hb : 2 ≤ base.toNat ∧ base.toNat ≤ 36)
+    (m : List Byte) (hm : (canonNat false base.toNat num.toNat).length + 1 ≤ m.length) :
+    ultoa num m base
+      = some (canonNat false base.toNat num.toNat ++ 0#8 :: m.drop ((canonNat false base.toNat num.toNat).length + 1), 0) :=
+  ultoa_spec num base hb.1 hb.2 m hm
+
+/-- itoa and igris_i32toa (ltoa and igris_i64toa) leave the same bytes in the buffer -/
+theorem itoa_same_text_as_i32toa (num : BitVec 32) (base : BitVec 8) (hb : 2 ≤ base.toNat ∧ base.toNat ≤ 36)
+    (m : List Byte) (hm : (canonInt false base.toNat num.toInt).length + 1 ≤ m.length) :
+    (itoa num m (base.zeroExtend 16)).map Prod.fst = (i32toa num m base).map Prod.fst := by
+  have e : (base.zeroExtend 16).toNat = base.toNat := by
+    simp [BitVec.zeroExtend_eq_setWidth]; have := base.isLt; omega
+  rw [i32toa_canonical num base hb m hm, itoa_spec num _ (by rw [e]; exact hb.1) (by rw [e]; exact hb.2) m (by rw [e]; exact hm), e]
+  rfl
+
+theorem ltoa_same_text_as_i64toa (num : BitVec 64) (base : BitVec 8) (hb : 2 ≤ base.toNat ∧ base.toNat ≤ 36)
+    (m : List Byte) (hm : (canonInt false base.toNat num.toInt).length + 1 ≤ m.length) :
+    (ltoa num m (base.zeroExtend 16)).map Prod.fst = (i64toa num m base).map Prod.fst := by
+  have e : (base.zeroExtend 16).toNat = base.toNat := by
+    simp [BitVec.zeroExtend_eq_setWidth]; have := base.isLt; omega
+  rw [i64toa_canonical num base hb m hm, ltoa_spec num _ (by rw [e]; exact hb.1) (by rw [e]; exact hb.2) m (by rw [e]; exact hm), e]
+  rfl
+
+-- INT_MIN, the value the unrepaired shim mangled (`int ud = -num`)
+example : itoa (BitVec.ofInt 32 (-2147483648)) (List.replicate 12 0xA5#8) 10#16
+    = some ([0x2D#8, 0x32#8, 0x31#8, 0x34#8, 0x37#8, 0x34#8, 0x38#8, 0x33#8, 0x36#8, 0x34#8, 0x38#8, 0#8], 0) := by decide
+
 end Igris.C07
